@@ -328,6 +328,11 @@ func genTxCase(r *rng, maxP int) J {
 			in["tz"] = r.pick2([]int{-720, -90, 60, 330, 840})
 		}
 	}
+	// strings the engine must carry as they are: NUL and other control / invisible characters in the reference and in metadata
+	// keys and values, and pairs of metadata keys that differ only by such a character (own rng: the rest of the case is unchanged)
+	if cr := r.fork(); cr.p(22) {
+		txControlStrings(cr, in, meta)
+	}
 	// malformed stream: one posting broken, or no posting at all
 	if r.p(15) {
 		k := r.n(len(posts))
@@ -357,6 +362,53 @@ func genTxCase(r *rng, maxP int) J {
 }
 
 func (r *rng) pick2(xs []int) int { return xs[r.n(len(xs))] }
+
+// characters a sanitiser might strip, fold or choke on (all of them are valid in a JSON string once escaped; lone surrogates are not
+// and are left out): NUL, C0 controls, DEL, NEL, no-break space, line / paragraph separator, BOM, zero-width space, tab, CR, LF
+var txControlChars = []string{"\x00", "\x00", "\x00", "\x01", "\x1f", "\x7f", "\u0085", "\u00a0", "\u2028", "\u2029", "\ufeff", "\u200b", "\t", "\r", "\n", "\x1b", "\x08"}
+
+func txSprinkle(r *rng, s string) string {
+	c := r.pick(txControlChars)
+	switch r.n(4) {
+	case 0:
+		return c + s
+	case 1:
+		return s + c
+	case 2:
+		return c
+	}
+	k := r.n(len(s) + 1)
+	return s[:k] + c + s[k:]
+}
+
+// txControlStrings rewrites the request fields of one case / bulk element in place
+func txControlStrings(r *rng, in J, meta J) {
+	if r.p(55) {
+		ref, _ := in["ref"].(string)
+		if ref == "" {
+			ref = "tenant-1order-" + strconv.Itoa(r.n(1000))
+		}
+		in["ref"] = txSprinkle(r, ref)
+	}
+	if meta == nil {
+		return
+	}
+	if r.p(60) { // a value
+		k := r.pick([]string{"memo", "raw", "note", "k"})
+		meta[k] = txSprinkle(r, r.pick([]string{"paid", "0001", "", "x y"}))
+	}
+	if r.p(45) { // a key
+		meta[txSprinkle(r, r.pick([]string{"tag", "k", "order"}))] = r.pick([]string{"v", "", "1"})
+	}
+	if r.p(45) { // two keys that differ only by such a character, with different values
+		k := r.pick([]string{"tag", "k", "a b", ""})
+		meta[k] = "blue"
+		meta[txSprinkle(r, k)] = "red"
+		if r.p(30) {
+			meta[txSprinkle(r, k)] = "green"
+		}
+	}
+}
 
 // ---------------------------------------------------------------- execution
 
@@ -620,6 +672,62 @@ func decodeStrict(b []byte, v any) error {
 	return d.Decode(v)
 }
 
+// one posting list handed to the commander the way the API controllers do it; the answer classified
+func txDirectSubmit(ctx context.Context, e *txEngine, txData ledger.TransactionData) J {
+	tx, err := e.cmd.CreateTransaction(ctx, command.Parameters{}, ledger.TxToScriptData(txData, false))
+	if err != nil {
+		cls, detail := "rejected", "other"
+		switch {
+		case machine.IsInsufficientFundError(err):
+			cls, detail = "insufficient_funds", "insufficient"
+		case command.IsInvalidTransactionError(err, command.ErrInvalidTransactionCodeCompilationFailed):
+			detail = "compilation"
+		case command.IsInvalidTransactionError(err, command.ErrInvalidTransactionCodeNoPostings):
+			detail = "no-postings"
+		case command.IsInvalidTransactionError(err, command.ErrInvalidTransactionCodeNoScript):
+			detail = "no-script"
+		case command.IsInvalidTransactionError(err, command.ErrInvalidTransactionCodeConflict):
+			detail = "conflict"
+		case command.IsErrMachine(err):
+			detail = "machine"
+		}
+		return J{"err": cls, "detail": detail}
+	}
+	return J{"rawtx": tx}
+}
+
+// the same list as a POST /{ledger}/transactions of the real v2 router over a Ledger that forwards to the commander
+func txV2Submit(ctx context.Context, e *txEngine, body []byte) J {
+	fl := &txLedger{fakeLedger: &fakeLedger{}, cmd: e.cmd}
+	h := v2.NewRouter(&txBackend{fakeBackend: fakeBackend{l: fl.fakeLedger}, l: fl}, &health.HealthController{}, metrics.NewNoOpRegistry(), auth.NewNoAuth())
+	req := httptest.NewRequest(http.MethodPost, "/l0/transactions", bytes.NewReader(body)).WithContext(ctx)
+	req.Header.Set("Content-Type", "application/json")
+	rec := httptest.NewRecorder()
+	h.ServeHTTP(rec, req)
+	status, resp := rec.Code, rec.Body.Bytes()
+	if status != http.StatusOK {
+		var e struct {
+			ErrorCode string `json:"errorCode"`
+		}
+		_ = decodeStrict(resp, &e)
+		if e.ErrorCode == "" {
+			e.ErrorCode = "HTTP" + strconv.Itoa(status)
+		}
+		return J{"err": txErrClass(e.ErrorCode), "detail": e.ErrorCode, "status": status}
+	}
+	var r struct {
+		Data *txJSON `json:"data"`
+	}
+	if err := decodeStrict(resp, &r); err != nil || r.Data == nil {
+		return J{"err": "undecodable-response", "detail": string(resp), "status": status}
+	}
+	tx, err := r.Data.toTx()
+	if err != nil {
+		return J{"err": "undecodable-response", "detail": err.Error(), "status": status}
+	}
+	return J{"rawtx": tx, "status": status}
+}
+
 func execTxScript(in J) J {
 	t := parseTxIn(in)
 	out := J{}
@@ -666,28 +774,7 @@ func execTxScript(in J) J {
 	}
 
 	// (b1) straight into the commander
-	run("direct", func(e *txEngine) J {
-		tx, err := e.cmd.CreateTransaction(ctx, command.Parameters{}, ledger.TxToScriptData(txData, false))
-		if err != nil {
-			cls, detail := "rejected", "other"
-			switch {
-			case machine.IsInsufficientFundError(err):
-				cls, detail = "insufficient_funds", "insufficient"
-			case command.IsInvalidTransactionError(err, command.ErrInvalidTransactionCodeCompilationFailed):
-				detail = "compilation"
-			case command.IsInvalidTransactionError(err, command.ErrInvalidTransactionCodeNoPostings):
-				detail = "no-postings"
-			case command.IsInvalidTransactionError(err, command.ErrInvalidTransactionCodeNoScript):
-				detail = "no-script"
-			case command.IsInvalidTransactionError(err, command.ErrInvalidTransactionCodeConflict):
-				detail = "conflict"
-			case command.IsErrMachine(err):
-				detail = "machine"
-			}
-			return J{"err": cls, "detail": detail}
-		}
-		return J{"rawtx": tx}
-	})
+	run("direct", func(e *txEngine) J { return txDirectSubmit(ctx, e, txData) })
 
 	httpRun := func(name string, mk func(b backend.Backend) http.Handler, url string, body []byte, dec func(status int, resp []byte) J) {
 		run(name, func(e *txEngine) J {
